@@ -9,6 +9,7 @@ PID = "C07"
 LEVEL = "other"
 CRATES = ["rlib_rational", "rlib_gcd"]
 RELEASE = True
+NO_HIDDEN_STATE = ['rlib_rational', 'rlib_gcd']   # driver rule STATE: these crates are plain data structures / functions
 ARMED = True
 ENGINES = ["E3", "E7", "E4c"]
 TECHNIQUE = "construction-site rule (every Rational aggregate is normalised, has denominator ONE, or is a sign-preserving rebuild), resolved-callee family agreement of the 16 operator impls, derive/impl coherence table, sign post-condition of norm from its branch structure, polynomial normal-form identities for the arguments handed to the normalising constructor"
